@@ -220,7 +220,7 @@ def _cauchy_pair(a, b):
 # operations that are not differentiable (or whose factors are not unique) at the generated points: rank-deficient and
 # full QR, repeated eigenvalues; operations defined on symmetric matrices get symmetric directions
 OP_ADJOINT_SKIP = {'det:mixed-cond', 'clip:bounds', 'sign:kink', 'absolute:kink', 'max:ties', 'qr:rankdef', 'qr:eps', 'qr_full', 'eigh1', 'eigh1:mixed', 'eigh:closegap'}
-OP_ADJOINT_SYM = {'cholesky', 'eigh', 'eigh:mixed'}
+OP_ADJOINT_SYM = {'cholesky', 'eigh', 'eigh:mixed', 'eigh:twice'}
 
 
 def op_adjoint_fails(case):
